@@ -12,7 +12,7 @@ const SPEC: Spec = Spec {
     ],
     bounds_quick: "B1 (+-Dense(S5,3))^2 + (+-Dense(S5,4)) x (+-Dense(S5,2)) both orders; B2 (+-Runs({0,1,M},3,8))^2; B3 +-Dense(S5,3) x 33 amounts (incl. each type's MAX and negative amounts) x 12 types + every amount 0..=200 for u32/i64/u128; B4 +-Dense(S5,4) x indices 0..=330,2^32,2^40 x {bit,set,clear}",
     bounds_thorough: "B1 additionally (+-Dense(S5,4))^2 and 4x3 / 3x4; B2 (+-Runs({0,1,M},3,12))^2; B3 every amount 0..=520; B4 indices 0..=400",
-    hang_secs: 300,
+    hang_secs: 120,
     probes: None,
     max_workers: 16,
 };
